@@ -43,11 +43,11 @@ def fam_disable_inside(rng, cfg, ty, targets, trig, reenable=False, gate=False, 
     invocation on shepherd `trig` disables the targets; everybody else waits for the disable (and the sign-offs)"""
     ns, nwk = cfg
     w = ns * nwk
-    n = w if exact_n else rng.choice([w + 1, 2 * w + 3, 40, 64, 97])
+    n = w if exact_n else rng.choice([40, 64, 97]) if gate else rng.choice([w + 1, 2 * w + 3, 40, 64, 97])
     start = rng.choice([0, 0, 5, rng.below(1000)])
     chunk = 1 if ty == "chunk" else 0
     rules = []
-    fl = 6
+    fl = 8          # flags 8.. = "wrapper of a target shepherd is inside func"; 2 = disabled, 4 = addworker done, 5 / 7 see below
     inside = []
     for d in targets:
         for j in range(nwk):
@@ -96,7 +96,7 @@ def fam_migrate(rng, cfg, ty, d, trig, how):
     ns, nwk = cfg
     w = ns * nwk
     rules = []
-    fl = 6
+    fl = 8
     inside = []
     for j in range(nwk):
         rules.append((d, j, ["S%d" % fl, "W2", "Y" if how == "yield" else "B1"]))
@@ -116,6 +116,8 @@ def fam_run_there(rng, cfg, ty, variant):
     s = rng.range(1, ns - 1)
     n = rng.choice([8, 20, 40])
     other = rng.choice([x for x in range(ns) if x != s])
+    if ty == "guided" and variant == "addworker+self-disable":
+        variant = "addworker"       # activesheps = 1: the first GUIDED claim is the whole range, the added worker gets nothing
     if variant == "self-disable":
         rules = [(s, rng.choice([0, 0, 2]), ["D%d" % s])]
     elif variant == "addworker":
@@ -157,12 +159,12 @@ def generate(rng, quick):
                 if not quick or k % 2 == 1:
                     out.append(fam_disable_inside(rng, cfg, ty, [d], trig, reenable=True))
                 if not quick or k % 3 == 0:
-                    out.append(fam_disable_inside(rng, cfg, ty, [d], trig, late_add=True, exact_n=True))
+                    out.append(fam_disable_inside(rng, cfg, ty, [d], trig, late_add=True))
                 if ns >= 3 and (not quick or k % 3 == 1):
                     out.append(fam_disable_inside(rng, cfg, ty, [d], trig, gate=True))
                 if not quick or k % 3 == 2:
                     out.append(fam_migrate(rng, cfg, ty, d, trig, rng.choice(["yield", "feb-block"])))
-                out.append(fam_run_there(rng, cfg, ty, ["self-disable", "addworker", "addworker+self-disable", "other-disable"][k % 4]))
+                out.append(fam_run_there(rng, cfg, ty, rng.choice(["self-disable", "self-disable", "addworker", "addworker+self-disable", "other-disable"])))
                 if not quick:
                     out.append(fam_run_there(rng, cfg, ty, "self-disable"))
                 out.append(fam_free(rng, cfg, ty))
@@ -303,9 +305,9 @@ def desc(sc):
             "stop": sc["stop"], "incr": sc["incr"], "chunk": sc["chunk"], "note": sc["note"], "qdis_script": script(sc)}
 
 
-def run_one(exe, sc, wd):
+def run_one(exe, sc, wd, setup=15):
     ns, nwk = (int(x) for x in sc["config"].split("x"))
-    rc, lines, err = core.run_lines(exe, script(sc), timeout=wd + 60, env=core.qenv(ns, nwk, stack=65536, C12_ALARM=wd))
+    rc, lines, err = core.run_lines(exe, script(sc), timeout=wd + 60, env=core.qenv(ns, nwk, stack=65536, C12_ALARM=wd, C12_SETUP=setup))
     res = parse(lines)
     if res["hdr"] is None:
         raise core.BuildError("c12_disable harness did not start: rc=%s %s" % (rc, err[-400:]))
@@ -313,6 +315,8 @@ def run_one(exe, sc, wd):
         raise core.BuildError("runtime reports %s, asked %dx%d" % (res["hdr"], ns, nwk))
     if res["status"] == "CRASH":
         res["status"] = "CRASH rc=%s" % rc if rc != -9 else "HANG (no output)"
+    if res["status"].startswith("CRASH-"):
+        res["status"] = res["status"].replace("CRASH-", "CRASH ")
     res["tok"] = tokens(res["events"])
     return res
 
@@ -341,6 +345,21 @@ def build(ctx):
     return exe, drv
 
 
+def read_order(ctx):
+    """which of the two plain reads of `while (*dc < *as)` the library object built for this run performs first
+    (offsets of donecount / activesheps in qqloop_handle_t: 0x18 / 0x20); None when the pattern is not recognised"""
+    try:
+        rc, out, _ = core.sh(["objdump", "-d", "--no-show-raw-insn", ctx.obj("qloop.c")], timeout=60)
+        body = out.split("<qt_loop_queue_run>:", 1)[1].split("\n\n", 1)[0]
+        import re
+        for m in re.finditer(r"mov\s+0x(18|20)\(%r\w+\),%rax\n\s*\w+:\s+cmp\s+%rax,0x(18|20)\(%r\w+\)", body):
+            if m.group(1) != m.group(2):
+                return "activesheps first" if m.group(1) == "20" else "donecount first"
+    except Exception:
+        pass
+    return None
+
+
 def run_disable(ctx, quick):
     t0 = time.time()
     rng = ctx.rng.fork()
@@ -349,9 +368,29 @@ def run_disable(ctx, quick):
     scs = load_corpus()
     ncorp = len(scs)
     scs += generate(rng, quick)
-    wd = 90
+    wd = 60
+    failed = []
+
+    def guarded(sc):
+        if len(failed) >= 3:          # enough failing scenarios to report: do not wait for more watchdogs
+            return {"hdr": None, "events": [], "V": {}, "Z": {}, "status": "SKIPPED", "chunksize": None, "tok": ([], 0, False, None, 0)}
+        r = run_one(exe, sc, wd)
+        if r["status"] != "OK" and r["Z"].get("inconclusive"):
+            # a set-up handshake timed out (machine load) and the scenario then did not finish: once more, alone-ish, long handshakes
+            r2 = run_one(exe, sc, 2 * wd, setup=60)
+            r2["first_attempt"] = "%s with handshake time-outs (flags %d)" % (r["status"], r["Z"].get("inconclusive"))
+            r = r2
+        ret = r["tok"][3]
+        if r["status"] != "OK" or (ret and ret[0] != ret[1]):
+            failed.append(sc["family"])
+        return r
     with ThreadPoolExecutor(max_workers=4) as pool:
-        results = list(pool.map(lambda sc: run_one(exe, sc, wd), scs))
+        results = list(pool.map(guarded, scs))
+    done = [(sc, r) for sc, r in zip(scs, results) if r["status"] != "SKIPPED"]
+    if len(done) < len(scs):
+        ctx.notes.append("queue loops with disable events: stopped after %d of %d scenarios (3 failing ones found)" % (len(done), len(scs)))
+    scs = [x[0] for x in done]
+    results = [x[1] for x in done]
     rc, mouts, merr = core.run_lines(drv, [model_line(sc, r) for sc, r in zip(scs, results)], timeout=600)
     if rc != 0 or len(mouts) != len(scs):
         raise core.BuildError("c12qdis model driver failed: rc=%s, %d of %d answers; %s" % (rc, len(mouts), len(scs), merr[-300:]))
@@ -384,6 +423,15 @@ def run_disable(ctx, quick):
         "rule": "non-trivial = at least one wrapper signed off (qthread_shep_ok() false after a func call) or qt_loop_queue_addworker ran; "
                 "every logged event of every scenario must be an enabled transition of the extracted machine with the observed outcome",
         "input_distribution": hist, "mismatches": len(mism), "samples": samples, "configs": ["%dx%d" % c for c in CONFIGS],
+        "caller_wait_read_order_in_this_build": read_order(ctx) or "not recognised",
+        "notes_not_verdicts": {
+            "qdis:wait-read-order (latent, compiler dependent)": "`while (*dc < *as)` is two plain reads in unspecified order; with activesheps "
+            "read first and qt_loop_queue_addworker between the reads the call returns while the added worker is inside the user function "
+            "(Coq witness qdis_asfirst_addworker_refuted; not reproducible on the real code without interposing plain loads; proposed patch "
+            "docs/proposed_fixes/C12-queue-wait-read-order.diff). donecount first is proved safe for every schedule.",
+            "qdis:run_there-all-workers-signed-off (API contract)": "qt_loop_queue_run_there on a shepherd that is disabled during the loop: the "
+            "only worker retires, the call returns (nothing hangs, nothing runs twice), the rest of the range is not run; model == implementation "
+            "in %d scenario(s) of this run (qdis_all_signed_off_uncovered); qdis_covered_exactly_once keeps the guard 'some worker stays enabled'" % tot["partial"]},
         "seconds": round(time.time() - t0, 1)}
     ctx.cov["evaluations"] = ctx.cov.get("evaluations", 0) + len(scs)
     ctx.cov["distinct_nontrivial"] = ctx.cov.get("distinct_nontrivial", 0) + len(nontrivial)
